@@ -3,6 +3,7 @@
 from __future__ import annotations
 
 import ast
+import re
 from ..core import utext
 from math import factorial
 
@@ -308,8 +309,11 @@ def check_falsy_and_state(prog: Program, res: Result, fi) -> None:
             if isinstance(a, (ast.GeneratorExp, ast.ListComp)):
                 elt = a.elt
                 # element must be a comparison / call, not a bare identifier
+                idish = re.search(r"atom|neighbo|nbr", norm(
+                    a.generators[0].iter)) or re.search(
+                    r"\.atoms\b|\batoms\[|neighbo|nbr", norm(elt))
                 if isinstance(elt, (ast.Name, ast.Subscript, ast.Attribute)) \
-                        and "atom" in norm(a.generators[0].iter):
+                        and idish:
                     res.bad("R-FALSY-ID", inst, fi.loc(node),
                             f"{inst}: identifiers are tested by truthiness; "
                             "atom 0 counts as absent")
